@@ -220,6 +220,25 @@ def parse_pack(data: bytes, oid: int):
             "trailer_ok": hashf(oid)(data[:dlen]).digest() == data[dlen:], "entries": entries}
 
 
+def ofs_to_ref(data: bytes, oid: int, external=None) -> bytes:
+    """Rewrite a pack so that every OFS_DELTA entry becomes a REF_DELTA entry naming the same base (what a peer
+    without the ofs-delta capability sends).  Header and name are re-encoded, the zlib streams are copied."""
+    pp = resolve_pack(parse_pack(data, oid), oid, external)
+    out = [data[:12]]
+    for e in pp["entries"]:
+        body_start = e["off"] + len(e["hdr"]) + len(e["ofsb"]) + (oid if e["t"] == REF else 0)
+        if e["t"] == OFS:
+            if e["basename"] is None:
+                raise ParseError("OFS_DELTA without resolvable base")
+            hdr = list(e["hdr"])
+            hdr[0] = (hdr[0] & 0x8F) | (REF << 4)
+            out.append(bytes(hdr) + e["basename"] + data[body_start:e["end"]])
+        else:
+            out.append(data[e["off"]:e["end"]])
+    body = b"".join(out)
+    return body + hashf(oid)(body).digest()
+
+
 def apply_delta_ref(base: bytes, delta: bytes) -> bytes:
     """git's patch-delta, minimal (only ever fed deltas the writers under test produced)."""
     def size(pos):
